@@ -45,6 +45,10 @@ type Frag struct {
 	In   []int
 	Out  []int
 	Body []Instr
+	// Templ: the fragment is a template (`template:true default_k:<DefK>`); the op "rsetk" of its body is
+	// written `rset rA, {{.Params.k}}`. An instance gives k in its fidef line or leaves it to the default.
+	Templ bool `json:",omitempty"`
+	DefK  int  `json:",omitempty"`
 }
 
 // Src names the source of a value: output port Port of instance Inst, or (Inst < 0) external
@@ -56,6 +60,8 @@ type Src struct{ Inst, Port int }
 type Inst struct {
 	Frag int
 	In   []Src
+	HasK bool `json:",omitempty"` // the fidef line carries k:<K> (templated fragments)
+	K    int  `json:",omitempty"`
 }
 
 // Case is one dataflow graph with input vector and the partitions to compare.
@@ -122,6 +128,10 @@ func (c *Case) Validate() error {
 					return fmt.Errorf("fragment %d line %d reads r%d before writing it", fi, k, in.B)
 				}
 			case "clr":
+			case "rsetk":
+				if !f.Templ || f.DefK < 0 || f.DefK > 255 {
+					return fmt.Errorf("fragment %d line %d: rsetk in a fragment that is not a template", fi, k)
+				}
 			case "rset":
 				if in.B < 0 || in.B > 255 {
 					return fmt.Errorf("fragment %d line %d: immediate %d", fi, k, in.B)
@@ -272,6 +282,8 @@ func (in Instr) Text() string {
 		return fmt.Sprintf("%s r%d", in.Op, in.A)
 	case "rset":
 		return fmt.Sprintf("rset r%d, %d", in.A, in.B)
+	case "rsetk":
+		return fmt.Sprintf("rset r%d, {{.Params.k}}", in.A)
 	}
 	return fmt.Sprintf("%s r%d, r%d", in.Op, in.A, in.B)
 }
@@ -300,10 +312,17 @@ func (c *Case) Source(part [][]int) string {
 	fmt.Fprintf(&b, "%%meta bmdef global iomode:sync\n")
 	for k, f := range c.Frags {
 		fmt.Fprintf(&b, "%%fragment f%d", k)
+		if f.Templ {
+			fmt.Fprintf(&b, " template:true")
+		}
 		if len(f.In) > 0 {
 			fmt.Fprintf(&b, " resin%s", regs(f.In))
 		}
-		fmt.Fprintf(&b, " resout%s\n", regs(f.Out))
+		fmt.Fprintf(&b, " resout%s", regs(f.Out))
+		if f.Templ {
+			fmt.Fprintf(&b, " default_k:%d", f.DefK)
+		}
+		b.WriteString("\n")
 		for _, in := range f.Body {
 			fmt.Fprintf(&b, "\t%s\n", in.Text())
 		}
@@ -313,6 +332,9 @@ func (c *Case) Source(part [][]int) string {
 		note := ""
 		if i < len(c.Notes) && c.Notes[i] != "" {
 			note = ", note:" + c.Notes[i]
+		}
+		if in.HasK {
+			note += fmt.Sprintf(", k:%d", in.K)
 		}
 		fmt.Fprintf(&b, "%%meta fidef %s fragment:f%d%s\n", c.instName(i), in.Frag, note)
 	}
@@ -461,13 +483,28 @@ func genFrag(t *rapid.T, pool int) Frag {
 	if nin == 0 && nbody == 0 {
 		nbody = 1
 	}
+	if rapid.IntRange(0, 3).Draw(t, "templ") == 0 {
+		f.Templ, f.DefK = true, rapid.IntRange(0, 255).Draw(t, "defk")
+		if nbody == 0 {
+			nbody = 1
+		}
+	}
+	kAt := -1
+	if f.Templ {
+		kAt = rapid.IntRange(0, nbody-1).Draw(t, "kat")
+	}
 	for k := 0; k < nbody; k++ {
 		op := rapid.SampledFrom(aluOps).Draw(t, "op")
 		if len(defl) == 0 && op != "clr" {
 			op = "rset"
 		}
+		if k == kAt {
+			op = "rsetk"
+		}
 		in := Instr{Op: op}
 		switch op {
+		case "rsetk":
+			in.A = anyr("a")
 		case "inc", "dec":
 			in.A = pick("a")
 		case "add", "mult":
@@ -564,6 +601,9 @@ func genCase(t *rapid.T) Case {
 	for i := 0; i < ni; i++ {
 		in := Inst{Frag: rapid.IntRange(0, nf-1).Draw(t, "frag")}
 		f := c.Frags[in.Frag]
+		if f.Templ && rapid.Bool().Draw(t, "hask") {
+			in.HasK, in.K = true, rapid.IntRange(0, 255).Draw(t, "k")
+		}
 		for range f.In {
 			var s Src
 			internal := len(ports) > 0 && rapid.IntRange(0, 9).Draw(t, "internal") < 7
@@ -641,6 +681,19 @@ func genCase(t *rapid.T) Case {
 	if rapid.IntRange(0, 3).Draw(t, "notes") == 0 {
 		for i := 0; i < ni; i++ {
 			c.Notes = append(c.Notes, rapid.SampledFrom([]string{"", "", "x", "7"}).Draw(t, "note"))
+		}
+	}
+	// an instance of a template that leaves k to the default still needs a key of its own: basm sends an
+	// instance through the template path only when its fidef line has a user-defined key (a default-only
+	// instance is refused with "no operator match": a clean refusal, not judged here)
+	for i, in := range c.Insts {
+		if c.Frags[in.Frag].Templ && !in.HasK {
+			for len(c.Notes) <= i {
+				c.Notes = append(c.Notes, "")
+			}
+			if c.Notes[i] == "" {
+				c.Notes[i] = "d"
+			}
 		}
 	}
 	if rapid.Bool().Draw(t, "oddnames") {
